@@ -564,6 +564,16 @@ def filter_map(src_t, x, P, E, out_sort):
     return f(parts[1], *params)
 
 
+def filter_map_step(src_t, i, x, P, E, out_sort):
+    """instance of the defining recursion of filter_map at index i (sound by definition):
+    fm(src[0:i+1]) == fm(src[0:i]) ++ (P(src[i]) ? [E(src[i])] : [])"""
+    P = z3.simplify(P) if not isinstance(P, bool) else z3.BoolVal(P)
+    e = src_t[i]
+    lhs = filter_map(z3.SubSeq(src_t, 0, i + 1), x, P, E, out_sort)
+    rhs = z3.Concat(filter_map(z3.SubSeq(src_t, 0, i), x, P, E, out_sort), z3.If(z3.substitute(P, (x, e)), z3.Unit(z3.substitute(E, (x, e))), z3.Empty(z3.SeqSort(out_sort))))
+    return lhs == rhs
+
+
 def symbolic_comprehension(it, st, node, gen, src: VSeq, flavour: str) -> V:
     eng = it.eng
     st.counter += 1
@@ -573,7 +583,10 @@ def symbolic_comprehension(it, st, node, gen, src: VSeq, flavour: str) -> V:
     it.assign(st, gen.target, xv)
     npc = len(st.pc)
     P = eng.z_and([pure_cond(it, st, c) for c in gen.ifs]) if gen.ifs else True
-    ev = pure_eval(it, st, node.elt)
+    if isinstance(node.elt, (ast.BoolOp, ast.Compare)) or (isinstance(node.elt, ast.UnaryOp) and isinstance(node.elt.op, ast.Not)):
+        ev = VBool(eng.z_bool(pure_cond(it, st, node.elt)))
+    else:
+        ev = pure_eval(it, st, node.elt)
     # facts assumed about the generic element (alive-ness etc.) mention only the bound placeholder,
     # which is abstracted away below: drop them instead of keeping facts about a free constant
     del st.pc[npc:]
@@ -1163,6 +1176,7 @@ def list_method(it, st, recv, name, args, kwargs, node):
         if isinstance(recv, VList):
             raise Unsupported("pop on concrete list")
         idx = _const_int(eng.coerce(st, args[0], "int").t) if args else -1
+        note("pop", VInt(idx))
         n = z3.Length(recv.t)
         if not eng.branch(st, n > 0, f"pop-nonempty@{node.lineno}"):
             eng.raise_(st, "IndexError", tag={"site": it.site(node)})
@@ -1175,6 +1189,7 @@ def list_method(it, st, recv, name, args, kwargs, node):
         else:
             raise Unsupported("pop(i)")
         if isinstance(v, VRef):
+            eng.assume(st, v.t != 0)  # lists of objects never hold None (list encoding)
             eng.assume_alive(st, v)
         return v
     if name == "count":
